@@ -242,7 +242,7 @@ impl<S: AnyScan> Iso<S> {
                     None => {
                         rep.count(&format!("c15_{}_system_messages", S::NAME), 1);
                         if o1 != Some(S::empty()) || self.shared != before {
-                            rep.violation(
+                            crate::viol!(rep, 
                                 format!("C15:{}:system-message-not-ignored", S::NAME),
                                 format!("system message {} returned {:?}; state changed: {}", ev.render(), o1, self.shared != before),
                                 hj::<S>(self.timeout, path, "nothing, equal state".into(), format!("{:?}", o1)),
@@ -252,7 +252,7 @@ impl<S: AnyScan> Iso<S> {
                     Some(c) => {
                         let o2 = self.solo[c as usize].feed_m(&m);
                         if o1 != o2 {
-                            rep.violation(
+                            crate::viol!(rep, 
                                 format!("C15:{}:shared-differs-from-solo", S::NAME),
                                 format!("feed({}) returned {:?} on the shared scanner but {:?} on a scanner that only sees channel {}", ev.render(), o1, o2, c),
                                 hj::<S>(self.timeout, path, format!("{:?}", o2), format!("{:?}", o1)),
@@ -262,7 +262,7 @@ impl<S: AnyScan> Iso<S> {
                             for rc in S::channels(&o).iter().flatten() {
                                 reported = true;
                                 if *rc != c {
-                                    rep.violation(
+                                    crate::viol!(rep, 
                                         format!("C15:{}:report-on-wrong-channel", S::NAME),
                                         format!("feed({}) reported a message on channel {}", ev.render(), rc),
                                         hj::<S>(self.timeout, path, format!("channel {}", c), format!("{:?}", o)),
@@ -280,7 +280,7 @@ impl<S: AnyScan> Iso<S> {
                     let o2 = self.solo[*c as usize].poll_c(*c);
                     rep.count("c15_polling_shared_polls", 1);
                     if o1 != o2 {
-                        rep.violation(
+                        crate::viol!(rep, 
                             format!("C15:{}:shared-poll-differs-from-solo", S::NAME),
                             format!("poll({}) returned {:?} on the shared scanner but {:?} on the solo scanner", c, o1, o2),
                             hj::<S>(self.timeout, path, format!("{:?}", o2), format!("{:?}", o1)),
@@ -290,7 +290,7 @@ impl<S: AnyScan> Iso<S> {
                         for rc in S::channels(&o).iter().flatten() {
                             reported = true;
                             if rc != c {
-                                rep.violation(
+                                crate::viol!(rep, 
                                     format!("C15:{}:report-on-wrong-channel", S::NAME),
                                     format!("poll({}) reported a message on channel {}", c, rc),
                                     hj::<S>(self.timeout, path, format!("channel {}", c), format!("{:?}", o)),
@@ -525,7 +525,7 @@ impl<S: AnyScan> Sys for Transp<S> {
                 let o = copy.feed_m(&raw(*a, *b, *c));
                 n += 1;
                 if o != Some(S::empty()) || copy != self.s {
-                    rep.violation(
+                    crate::viol!(rep, 
                         format!("C16:{}:not-transparent", S::NAME),
                         format!(
                             "non-contributing message {} returned {:?}; state changed: {}",
@@ -637,7 +637,7 @@ fn c16_for<S: AnyScan>(cfg: &Cfg, rep: &mut Report, timeouts: &[u64]) {
                         let o = noisy.feed_m(&raw(a, b, c2));
                         if o != Some(S::empty()) {
                             let h = &hist;
-                            rep.violation(
+                            crate::viol!(rep, 
                                 format!("C16:{}:inserted-message-reports", S::NAME),
                                 format!("inserted non-contributing message {} returned {:?}", ins.render(), o),
                                 hj::<S>(t, &|| h.iter().map(|e| e.render()).collect(), "nothing".into(), format!("{:?}", o)),
@@ -673,7 +673,7 @@ fn c16_for<S: AnyScan>(cfg: &Cfg, rep: &mut Report, timeouts: &[u64]) {
                 }
                 if o1 != o2 || plain != noisy {
                     let h = &hist;
-                    rep.violation(
+                    crate::viol!(rep, 
                         format!("C16:{}:insertions-change-the-rest-of-the-stream", S::NAME),
                         format!("{}: stream with insertions returned {:?}, stream without returned {:?}; states equal: {}", e.render(), o2, o1, plain == noisy),
                         hj::<S>(t, &|| h.iter().map(|e| e.render()).collect(), format!("{:?}", o1), format!("{:?}", o2)),
@@ -711,7 +711,7 @@ pub fn run_c16(cfg: &Cfg, rep: &mut Report) {
         let want = (n < 64, if n < 32 { Some(n + 32) } else { None }, is_pn_controller(n));
         let got = r.map(|(a, b, c)| (a, b.map(|x| x.get()), c));
         if got != Some(want) {
-            rep.violation(
+            crate::viol!(rep, 
                 format!("C16:predicate:cn{}", n),
                 format!("controller number {}: (can_be_part_of_14_bit, corresponding_lsb, is_parameter_number) = {:?}, expected {:?}", n, got, want),
                 json!({"kind":"predicate","controller_number":n}),
@@ -740,7 +740,7 @@ pub fn run_c16(cfg: &Cfg, rep: &mut Report) {
     for (name, m, l, midi) in pairs.iter() {
         rep.evaluations += 1;
         if l.get() != m.get() + 32 || m.get() != *midi || m.corresponding_14_bit_lsb_controller_number() != Some(*l) {
-            rep.violation(
+            crate::viol!(rep, 
                 format!("C16:constant:{}", name),
                 format!("{} = {}, {}_LSB = {} (MIDI 1.0: {} and {})", name, m.get(), name, l.get(), midi, midi + 32),
                 json!({"kind":"constant","name":name}),
@@ -760,7 +760,7 @@ pub fn run_c16(cfg: &Cfg, rep: &mut Report) {
     for (name, c, midi) in named.iter() {
         rep.evaluations += 1;
         if c.get() != *midi || !c.is_parameter_number_message_controller_number() {
-            rep.violation(
+            crate::viol!(rep, 
                 format!("C16:constant:{}", name),
                 format!("{} = {} (MIDI 1.0: {})", name, c.get(), midi),
                 json!({"kind":"constant","name":name}),
@@ -819,7 +819,7 @@ fn c17_checks<S: AnyScan>(s: &S, now: u64, timeout: u64, rng: &mut Rng, chans: u
     let fresh = S::make(timeout);
     rep.count(&format!("c17_{}_resets_checked", S::NAME), 1);
     if r != fresh {
-        rep.violation(
+        crate::viol!(rep, 
             format!("C17:{}:reset-not-equal-new", S::NAME),
             "after reset() the scanner does not compare equal to a newly created one (same timeout)".to_string(),
             hj::<S>(timeout, &|| {
@@ -847,7 +847,7 @@ fn c17_checks<S: AnyScan>(s: &S, now: u64, timeout: u64, rng: &mut Rng, chans: u
         let ob = apply_plain(&mut b, &mut nb, e);
         rep.evaluations += 1;
         if oa != ob || a != b {
-            rep.violation(
+            crate::viol!(rep, 
                 format!("C17:{}:reset-scanner-diverges-from-new", S::NAME),
                 format!("suffix event #{} ({}) returned {:?} on the reset scanner and {:?} on a new one; states equal: {}", i, e.render(), oa, ob, a == b),
                 hj::<S>(timeout, &|| {
@@ -870,7 +870,7 @@ fn c17_checks<S: AnyScan>(s: &S, now: u64, timeout: u64, rng: &mut Rng, chans: u
         outs_o.push(apply_plain(&mut orig, &mut no, e));
     }
     if copy != snapshot {
-        rep.violation(
+        crate::viol!(rep, 
             format!("C17:{}:copy-not-independent", S::NAME),
             "a copy changed while the original was being fed".to_string(),
             hj::<S>(timeout, path, "copy == snapshot".into(), "copy changed".into()),
@@ -881,7 +881,7 @@ fn c17_checks<S: AnyScan>(s: &S, now: u64, timeout: u64, rng: &mut Rng, chans: u
     for (i, e) in suffix.iter().enumerate() {
         let oc = apply_plain(&mut c2, &mut nc, e);
         if oc != outs_o[i] {
-            rep.violation(
+            crate::viol!(rep, 
                 format!("C17:{}:copy-evolves-differently", S::NAME),
                 format!("suffix event #{} ({}) returned {:?} on the copy and {:?} on the original", i, e.render(), oc, outs_o[i]),
                 hj::<S>(timeout, &|| {
@@ -894,7 +894,7 @@ fn c17_checks<S: AnyScan>(s: &S, now: u64, timeout: u64, rng: &mut Rng, chans: u
         }
     }
     if c2 != orig {
-        rep.violation(
+        crate::viol!(rep, 
             format!("C17:{}:copy-evolves-differently", S::NAME),
             "copy and original differ after the same suffix".to_string(),
             hj::<S>(timeout, path, "equal states".into(), "different states".into()),
@@ -993,7 +993,7 @@ fn c17_for<S: AnyScan>(cfg: &Cfg, rep: &mut Report, timeouts: &[u64]) {
     let n = S::make(0);
     rep.evaluations += 1;
     if d != n {
-        rep.violation(
+        crate::viol!(rep, 
             format!("C17:{}:new-differs-from-default", S::NAME),
             "new() (polling: new(zero timeout)) does not compare equal to default()".to_string(),
             json!({"kind":"new-vs-default","scanner":S::NAME}),
@@ -1015,7 +1015,7 @@ fn c17_for<S: AnyScan>(cfg: &Cfg, rep: &mut Report, timeouts: &[u64]) {
             lastz = apply_plain(&mut z, &mut nz, e);
         }
         if last != lastz || last == Some(S::empty()) {
-            rep.violation(
+            crate::viol!(rep, 
                 format!("C17:{}:default-is-not-zero-timeout", S::NAME),
                 format!("default() scanner polled immediately returned {:?}, new(0) returned {:?}", last, lastz),
                 json!({"kind":"new-vs-default","scanner":S::NAME}),
